@@ -1,6 +1,5 @@
 from __future__ import annotations
 
-import functools
 import sympy
 from .. import templates
 from .python import PythonCodeGenerator, GotranPythonCodePrinter
@@ -15,20 +14,6 @@ class JaxPrinter(GotranPythonCodePrinter):
                 return f"_{sym.base.name}_{index} = {self._print(value)}"
 
         return super()._print_Assignment(expr)
-
-    def _print_nested(self, func: str, expr) -> str:
-        # jax.numpy.logical_and.reduce / logical_or.reduce do not accept
-        # a tuple of operands, so we nest the binary functions instead
-        return functools.reduce(
-            lambda acc, arg: f"{func}({acc}, {arg})",
-            [self._print(arg) for arg in expr.args],
-        )
-
-    def _print_And(self, expr):
-        return self._print_nested("numpy.logical_and", expr)
-
-    def _print_Or(self, expr):
-        return self._print_nested("numpy.logical_or", expr)
 
 
 class JaxCodeGenerator(PythonCodeGenerator):
